@@ -41,6 +41,7 @@ func Activate(stderr io.Writer, spawnCfg *daemondefs.SpawnConfig) (daemondefs.Cl
 	cl := NewClient(sockpath)
 	status, err := detectDaemon(sockpath, cl)
 	shouldSpawn := false
+	verifPause("shell:detected", spawnCfg)
 
 	switch status {
 	case daemonOK:
@@ -50,6 +51,7 @@ func Activate(stderr io.Writer, spawnCfg *daemondefs.SpawnConfig) (daemondefs.Cl
 		return cl, fmt.Errorf("socket file %s inaccessible: %w", sockpath, err)
 	case connectionRefused:
 		fmt.Fprintf(stderr, connectionRefusedFmt, sockpath)
+		verifPause("shell:before-remove-stale", spawnCfg)
 		err := os.Remove(sockpath)
 		if err != nil {
 			return cl, fmt.Errorf("failed to remove socket file: %w", err)
@@ -72,6 +74,7 @@ func Activate(stderr io.Writer, spawnCfg *daemondefs.SpawnConfig) (daemondefs.Cl
 		return cl, nil
 	}
 
+	verifPause("shell:before-spawn", spawnCfg)
 	err = spawn(spawnCfg)
 	if err != nil {
 		return cl, fmt.Errorf("failed to spawn daemon: %w", err)
@@ -80,6 +83,7 @@ func Activate(stderr io.Writer, spawnCfg *daemondefs.SpawnConfig) (daemondefs.Cl
 	// Wait for daemon to come online
 	start := time.Now()
 	for time.Since(start) < daemonSpawnTimeout {
+		verifPause("shell:poll", spawnCfg)
 		cl.ResetConn()
 		status, err := detectDaemon(sockpath, cl)
 
